@@ -17,7 +17,9 @@ DIMS = [
  ("async", ["def", "async def"]),
  ("placement", ["module", "test-class", "plain-class", "nested-in-function"]),
  ("params", ["none", "one", "many", "posonly", "kwonly", "defaults", "annotated", "varargs", "request"]),
- ("body", ["return", "yield", "yield-in-with", "yield-in-async-with", "yield-in-try", "yield-in-except", "yield-in-else", "yield-in-finally", "yield-in-for", "yield-in-while", "yield-in-if", "yield-in-elif", "x=yield", "yield-from", "yield-in-nested-def", "yield-in-lambda", "try-then-yield", "if-then-yield", "for-then-yield", "while-then-yield", "with-then-yield", "try-finally-then-yield-in-if", "match-then-yield", "yield-in-match", "yield-in-try-star", "yield-in-except-star"]),
+ ("body", ["return", "yield", "yield-in-with", "yield-in-async-with", "yield-in-try", "yield-in-except", "yield-in-else", "yield-in-finally", "yield-in-for", "yield-in-while", "yield-in-if", "yield-in-elif", "x=yield", "yield-from", "yield-in-nested-def", "yield-in-lambda", "try-then-yield", "if-then-yield", "for-then-yield", "while-then-yield", "with-then-yield", "try-finally-then-yield-in-if", "match-then-yield", "yield-in-match", "yield-in-try-star", "yield-in-except-star",
+          "yields-in-except-and-else", "yields-in-body-and-except", "yields-in-else-and-finally", "yields-in-if-and-else", "yields-in-for-and-else", "yields-in-while-and-else",
+          "yields-in-except-star-and-else", "yields-in-two-handlers", "yields-in-two-cases", "yield-then-yield"]),
  ("ret", ["none", "int", "mod.T", "List[int]", "Generator[int, None, None]", "Iterator[int]", "int | None", '"Fwd"', "Dict[str, List[int]]", "Generator[Dict[str, int], None, None]"]),
  ("doc", ["none", "one-line", "multi-indented", "blank-first-last", "raw", "triple-single", "not-first-statement", "non-ascii", "tab-indented"]),
  ("style", ["decorator", "assignment"]),
@@ -38,6 +40,12 @@ BODIES = [
  ["try:", "    v = 1", "finally:", "    pass", "if v:", "    yield v"],
  ["match SCOPE:", "    case 'x':", "        v = 1", "    case _:", "        v = 2", "yield v"], ["match SCOPE:", "    case 'x':", "        yield 1", "    case _:", "        yield 2"],
  ["try:", "    yield 1", "except* ValueError:", "    pass"], ["try:", "    pass", "except* ValueError:", "    yield 1"],
+ # two yields in different blocks of one statement: the yield line is the first in SOURCE order
+ ["try:", "    v = 1", "except Exception:", "    yield 1", "else:", "    yield 2"], ["try:", "    yield 1", "except Exception:", "    yield 2"],
+ ["try:", "    v = 1", "except Exception:", "    v = 2", "else:", "    yield 1", "finally:", "    yield 2"], ["if SCOPE:", "    yield 1", "else:", "    yield 2"],
+ ["for i in range(1):", "    yield 1", "else:", "    yield 2"], ["while False:", "    yield 1", "else:", "    yield 2"],
+ ["try:", "    v = 1", "except* ValueError:", "    yield 1", "else:", "    yield 2"], ["try:", "    v = 1", "except ValueError:", "    yield 1", "except Exception:", "    yield 2"],
+ ["match SCOPE:", "    case 'x':", "        yield 1", "    case _:", "        yield 2"], ["yield 1", "yield 2"],
 ]
 RETS = [None, "int", "mod.T", "List[int]", "Generator[int, None, None]", "Iterator[int]", "int | None", '"Fwd"', "Dict[str, List[int]]", "Generator[Dict[str, int], None, None]"]
 DOCS = [None, ['"""One line."""'], ['"""Summary.', "", "    Indented body", "      more", '    """'], ['"""', "    Starts after blank.", "", '    """'],
